@@ -121,9 +121,10 @@ def run(ctx):
     if not quick:
         vlib.tlc_model(ctx, "Rtx", "Rtx_dense", workers=12, timeout=900)
     # 2. the layouts to replay: every initial state of the model with the real MTU
-    res = vlib.tlc_model(ctx, "Rtx", "Rtx_Vec", workers=1, timeout=300)
+    #    (run_tlc: an enumeration, not counted as model-checking states in the evidence)
+    res = vlib.run_tlc(ctx, "Rtx", "Rtx_Vec", workers=1, timeout=300)
     layouts = [v[0] for v in res.tag("VERIF_VEC")]
-    if len(layouts) != res.distinct or not layouts:
+    if res.rc != 0 or len(layouts) != res.distinct or not layouts:
         raise vlib.NoVerdict("expected one emitted layout per initial state (%d vs %d)" % (len(layouts), res.distinct))
     layouts.sort(key=lambda v: (v["cc"], v["x"], v["prof"], v["xl"], v["pad"], v["plmax"], v["pl"], v["m"]))
     fillings = 1 if quick else 20
@@ -142,7 +143,7 @@ def run(ctx):
     crashes = _replay(ctx, binary, vecs, trace)
 
     # 4. TLC judges what pion did
-    ctx.viol = _parallel_trace(ctx, "Rtx_Trace", "Rtx_Trace", trace, 1 if quick else 8, 20000)
+    ctx.viol = _parallel_trace(ctx, "Rtx_Trace", "Rtx_Trace", trace, 3 if quick else 8, 20000)
     lines = [l for l in vlib.read_ndjson(trace) if l.get("ev") in ("rtx", "crash")]
     pk = [l for l in lines if l["ev"] == "rtx"]
     delivered = [l for l in pk if l["res"] == "delivered"]
